@@ -142,6 +142,9 @@ class InducingPointKernel(Kernel):
         if replace_kernel_mat:
             cp._cached_kernel_mat = kernel_mat
 
+        # the copy is re-built through the constructor (training mode): carry the mode over
+        cp.train(self.training)
+
         return cp
 
     def prediction_strategy(self, train_inputs, train_prior_dist, train_labels, likelihood):
